@@ -23,20 +23,63 @@ func scenElect(voters []uint64, nonvoters []uint64, maxTerm uint64, dev int, cra
 	return sc
 }
 
+// seeds of the election scenarios: non-initial worlds built by a scripted prefix
+func scenElectSeed(name string, script []string, maxTerm uint64, dev int, orderCost bool) *simScenario {
+	sc := scenElect([]uint64{1, 2, 3}, nil, maxTerm, dev, 1)
+	sc.Name = "elect-" + name
+	sc.Script = script
+	sc.Menu.OrderCost = orderCost
+	sc.Menu.Dups = false
+	if orderCost {
+		sc.Name += "-delaybounded"
+	}
+	return sc
+}
+
+// votes-only variant: replication streams never run (all appends delayed
+// beyond the horizon), which leaves the interleavings of timeouts, vote
+// requests/replies, disconnect notifications, crashes and restarts
+func scenElectVotesOnly(name string, script []string, maxTerm uint64, dev int) *simScenario {
+	sc := scenElectSeed(name, script, maxTerm, dev, false)
+	sc.Name += "-votesonly"
+	sc.Opt.NoRepl = true
+	return sc
+}
+
+var (
+	// established leader n1; the followers believe in it
+	electSeedLeader = []string{"T:1", "run"}
+	// ex-leader n1 that just stepped down (lost contact with both followers, which still believe in it)
+	electSeedStepdown = []string{"T:1", "run", "block:1:2", "block:1:3", "runnodc", "heal:1:2", "heal:1:3"}
+)
+
 func init() {
 	simScenarios["elect"] = scenElect([]uint64{1, 2, 3}, nil, 3, 2, 0)
+	simScenarios["elect-stepdown"] = scenElectSeed("stepdown", electSeedStepdown, 4, 2, false)
+	simScenarios["elect-leader"] = scenElectSeed("leader", electSeedLeader, 4, 2, false)
+	simScenarios["elect-stepdown-votesonly"] = scenElectVotesOnly("stepdown", electSeedStepdown, 4, 3)
 	spec := &simCheckSpec{
 		Prop:    "C01",
 		Oracles: []string{"leader", "vote"},
 		Scenarios: func(tier string) []*simScenario {
 			if tier == "thorough" {
 				return []*simScenario{
+					scenElectSeed("stepdown", electSeedStepdown, 4, 3, false),
+					scenElectSeed("leader", electSeedLeader, 4, 3, false),
+					scenElectSeed("initial", nil, 4, 5, true),
 					scenElect([]uint64{1, 2, 3}, nil, 4, 4, 1),
 					scenElect([]uint64{1, 2}, nil, 4, 4, 1),
 					scenElect([]uint64{1, 2, 3}, []uint64{4}, 3, 3, 0),
 				}
 			}
-			return []*simScenario{scenElect([]uint64{1, 2, 3}, nil, 3, 3, 1)}
+			return []*simScenario{
+				scenElectSeed("initial", []string{"T:1"}, 3, 2, false), // by symmetry the first timeout is at n1
+				scenElectSeed("stepdown", electSeedStepdown, 4, 2, false),
+				scenElectVotesOnly("stepdown", electSeedStepdown, 4, 3),
+				scenElectVotesOnly("leader", electSeedLeader, 4, 3),
+				scenElectSeed("leader", electSeedLeader, 4, 3, true),
+				scenElectSeed("initial", nil, 3, 4, true),
+			}
 		},
 		Budget: func(tier string) time.Duration {
 			if tier == "thorough" {
